@@ -167,6 +167,20 @@ CHECKS = [
           "known findings, not repaired. Not under contract: DistNormalTrunc.draw (accuracy guards of erf_inv), most constructors "
           "(validation), the Quantity-valued wrappers. math functions are axiomatised (domain/sign/monotonicity), values over the reals.",
   "technique": "deductive verification: totality/support/frame contracts per sampling algorithm over an abstract stream, loop invariants; z3"},
+ {"property_id": "C07",
+  "text": "Determinism effect obligations: for every function on the run path (run loop, scheduling, event list, SimEvent, "
+          "pub/sub, streams, seed updaters, all draw()/_set_stream of the 19 distributions, all register/notify/_fire_events/getters "
+          "of the statistics classes) the whole call closure (resolved by name over the class table, conservative) is scanned for "
+          "process-varying primitives (hash, id, set iteration, time.*, os.urandom, unseeded random): one ground obligation per "
+          "root, exhaustive over the closure; lemma (SMT): the event order depends on ids only through their relative order, so "
+          "creation counters inherited from earlier activity do not matter. Delivery in subscription order is the C08 loop "
+          "postcondition; event order the C01/C02 contracts; stream reproducibility C12.",
+  "design_ref": "DESIGN.md section 6 C07",
+  "note": "Trusted: the effect catalogue of primitives and the meta-theorem that a composition of functional primitives is functional; "
+          "CPython determinism on one platform; the functional contracts of C01/C02/C08/C12 it builds on. Bit-identity of float "
+          "statistics is a consequence of determinism of float operations on one platform, not separately proved. "
+          "Wall-clock use in the start/stop waits and the clock-based default seed are allow-listed with reasons.",
+  "technique": "effect contracts: syntactic determinism-effect check over the call closure (ground obligations) + SMT lemma on id renumbering"},
 ]
 _claimed = {c["property_id"] for c in CHECKS}
 NOT_APPLICABLE = [
